@@ -424,13 +424,15 @@ static void gen_c14(Builder &b, bool thorough) {
 	int ntasks = (int)rng.range(2, 4);
 	b.phase = 0; b.task = 0;
 	// shared objects
+	bool full_shipped = !gc.small && gc.mode == "fullshipped"; // threads hash in fast mode over one shared, complete 2 GiB dataset
 	uint32_t cf = b.rnd_cache_flags();
+	if (full_shipped) { cf |= F_JIT; b.plan.fullmem_model = true; }
 	b.alloc_cache(0, cf, b.rnd_heap()); b.init_cache(0, b.rnd_key());
 	bool second_cache = rng.chance(1, 3);
 	if (second_cache) { b.alloc_cache(1, b.rnd_cache_flags(), b.rnd_heap()); b.init_cache(1, b.rnd_key()); }
-	bool shared_ds = gc.small && rng.chance(1, 2);
+	bool shared_ds = (gc.small && rng.chance(1, 2)) || full_shipped;
 	if (shared_ds) { b.alloc_dataset(0, rng.chance(1, 4) ? F_LARGE : 0, b.rnd_heap()); b.init_dataset_full(0, 0); }
-	bool init_ds = rng.chance(1, 2); // a second dataset initialised concurrently over disjoint ranges
+	bool init_ds = rng.chance(1, 2) && !full_shipped; // a second dataset initialised concurrently over disjoint ranges
 	std::vector<std::pair<uint64_t, uint64_t>> ranges; // disjoint (start,count)
 	if (init_ds) {
 		b.alloc_dataset(1, 0, b.rnd_heap());
